@@ -325,7 +325,9 @@ class CSSSerializer:
         self._level = 0  # current nesting level
 
         # TODO:
-        self._selectors = []  # holds SelectorList
+        # SelectorLists of the preceding rules of the sheet being serialized,
+        # None while no sheet is being serialized
+        self._selectors = None
         self._selectorlevel = 0  # current specificity nesting level
 
     def _atkeyword(self, rule):
@@ -389,18 +391,25 @@ class CSSSerializer:
         """serializes a complete CSSStyleSheet"""
         useduris = stylesheet._getUsedURIs()
         out = []
-        for rule in stylesheet.cssRules:
-            if (
-                self.prefs.keepUsedNamespaceRulesOnly
-                and rule.NAMESPACE_RULE == rule.type
-                and rule.namespaceURI not in useduris
-                and (rule.prefix or None not in useduris)
-            ):
-                continue
+        # prefs.indentSpecificities relates the rules of this sheet to each
+        # other only, not to anything serialized before
+        saved = self._selectors, self._selectorlevel
+        self._selectors, self._selectorlevel = [], 0
+        try:
+            for rule in stylesheet.cssRules:
+                if (
+                    self.prefs.keepUsedNamespaceRulesOnly
+                    and rule.NAMESPACE_RULE == rule.type
+                    and rule.namespaceURI not in useduris
+                    and (rule.prefix or None not in useduris)
+                ):
+                    continue
 
-            cssText = rule.cssText
-            if cssText:
-                out.append(cssText)
+                cssText = rule.cssText
+                if cssText:
+                    out.append(cssText)
+        finally:
+            self._selectors, self._selectorlevel = saved
         text = self._linenumnbers(self.prefs.lineSeparator.join(out))
 
         # get encoding of sheet, defaults to UTF-8
@@ -761,7 +770,7 @@ class CSSSerializer:
 
         # prepare for element nested rules
         # TODO: sort selectors!
-        if self.prefs.indentSpecificities:
+        if self.prefs.indentSpecificities and self._selectors is not None:
             # subselectorlist?
             elements = {s.element for s in rule.selectorList}
             specitivities = [s.specificity for s in rule.selectorList]
